@@ -212,13 +212,24 @@ def run(ctx):
         lits = literals(b, R, rb)
         extra = [l for l in lits if not (l[0] == 'is' and (is_call(l[1], 'Iterator::next') or is_call(l[1], 'PolyhedraGen::next')))]
         allowed = True
+
+        def atom_ok(x):
+            if is_call(x, 'Tree::contains'):
+                return True
+            if x[0] == 'bin' and x[1] in ('Gt', 'Ge') and is_call(x[2], 'Tree::num_children'):
+                return True
+            return x[0] == 'bin' and x[1] == 'Lt'
         for l in extra:
             x = l[1]
-            if l[0] == 'true' and is_call(x, 'Tree::contains'):
+            if l[0] == 'true' and atom_ok(x):
                 continue
-            if l[0] == 'true' and x[0] == 'bin' and x[1] in ('Gt', 'Ge') and is_call(x[2], 'Tree::num_children'):
+            # the same guards in their negated spelling (`if !contains(p) || num_children(p) <= 1 { continue }`)
+            if l[0] == 'false' and x[0] == 'un' and x[1] == 'Not' and atom_ok(x[2]):
                 continue
-            if l[0] == 'true' and x[0] == 'bin' and x[1] == 'Lt':
+            if any(op_ in ('Gt', 'Ge') and is_call(x_, 'Tree::num_children') for op_, x_, y_ in prune.cmp_facts([l])):
+                continue
+            # the same conjunction held in a variable first (`let removable = contains(p) && num_children(p) > 1; if removable`)
+            if l[0] == 'true' and x[0] == 'phi' and len(x) >= 3 and all(a == ('const', False) or atom_ok(a) for a in x[2]):
                 continue
             allowed = False
         elem = any(is_call(x, 'Iterator::next') for x in walk(ra[1])) and any(is_call(x, 'Iterator::next') for x in walk(ra[2]))
